@@ -84,6 +84,18 @@ public:
   virtual void parameterConstraintChanged(ParameterEvent& event) = 0;
 };
 
+#ifdef BPP_CORE_VERIF
+class Parameter;
+namespace verif
+{
+/**
+ * @brief Verification hook, compiled only with -DBPP_CORE_VERIF and null by default:
+ * called at the end of every state-changing Parameter member.
+ */
+extern void (* parameterAudit)(const Parameter* p, const char* where);
+}
+#endif
+
 /**
  * @brief This class is designed to facilitate the manipulation of parameters.
  *
